@@ -739,6 +739,25 @@ fn crowd(wave_size: usize, waves: usize, seed: u64) -> Value {
     let mut mismatches: Vec<Value> = vec![];
     let mut total = 0u64;
     let mut panics = 0u64;
+    // a long map with two differently ill-typed elements: the failure reported is that of the first one,
+    // deterministically (whatever the library does inside to get through 8192 elements)
+    {
+        let mut items: Vec<Value> = (0..8192).map(|i| json!({"v": i})).collect();
+        items[4095] = json!({"v": "n/a"});
+        for it in items.iter_mut().skip(4096) {
+            *it = json!({"v": true});
+        }
+        let big = Rcvar::new(var_of(&json!({"items": items})));
+        for rep in 0..12 {
+            for text in ["map(&abs(v), items)", "items[*].abs(v)", "sort_by(items, &abs(v))", "max_by(items, &abs(v))"] {
+                let g = fp(&jmespath::compile(text).and_then(|e| e.search(&big)));
+                total += 1;
+                if !(g.starts_with("err:") && g.contains("string") && !g.contains("boolean")) && mismatches.len() < 6 {
+                    mismatches.push(json!({"mode": "crowd", "expression": text, "repetition": rep, "expected": "the invalid-type error of element 4095 (a string)", "observed": g.chars().take(200).collect::<String>()}));
+                }
+            }
+        }
+    }
     for w in 0..waves {
         let base = 1_700_000_000_000_000_000u64 + seed * 1_000_000 + (w as u64) * 1000;
         let shared = Rcvar::new(var_of(&json!({"items": (0..40u64).map(|i| json!({"id": i, "ts": (base + i * 7).to_string()})).collect::<Vec<_>>()})));
@@ -810,6 +829,207 @@ fn crowd(wave_size: usize, waves: usize, seed: u64) -> Value {
     json!({"mode": "stress", "threads": wave_size, "searches": total, "mismatches": mismatches, "panics": panics, "interleaving": format!("crowd{}x{}", wave_size, waves), "inputs_mutated": []})
 }
 
+/// Every thread calls THE SAME built-in through ONE shared runtime in a tight loop, one built-in
+/// after another, each thread with inputs of its own (distinct content; sizes 0..376 cycle so that
+/// short and long code paths interleave; ties at the extremes; two differently ill-typed elements
+/// in long maps). What each call must return was computed by the same thread through a private
+/// runtime before the loop started. Then rounds with a FRESH shared runtime: all threads bring
+/// never-seen long numeric arrays to the aggregate functions at once (anything a runtime keeps per
+/// function, with a capacity, fills up and overflows under contention here). The duration only
+/// sizes the workload; it is never a verdict.
+fn hammer(threads: usize, millis: u64, seed: u64) -> Value {
+    use std::sync::atomic::{AtomicBool, AtomicUsize, Ordering};
+    use std::time::{Duration, Instant};
+    let fresh = || {
+        let mut rt = jmespath::Runtime::new();
+        rt.register_builtin_functions();
+        rt
+    };
+    const SIZES: [usize; 17] = [0, 1, 2, 3, 8, 15, 16, 17, 24, 31, 32, 33, 64, 100, 256, 376, 2600];
+    // (name, expression, document builder)
+    type Build = fn(usize, usize, &mut Rng) -> Value;
+    let workloads: Vec<(&'static str, &'static str, Build)> = vec![
+        ("join", "join('-', words)", |t, n, _| json!({"words": (0..n).map(|i| format!("s{}n{}x{}", t, n, i)).collect::<Vec<_>>()})),
+        ("sort", "sort(v)", |t, n, r| json!({"v": (0..n).map(|_| (r.below(50) + t) as i64 - 20).collect::<Vec<_>>()})),
+        ("sort-strings", "sort(v)", |t, n, r| json!({"v": (0..n).map(|_| format!("w{}-{}", r.below(20), t)).collect::<Vec<_>>()})),
+        ("sort_by", "sort_by(people, &age)[*].name", |t, n, r| json!({"people": (0..n).map(|i| json!({"name": format!("p{}-{}", t, i), "age": 20 + r.below(6)})).collect::<Vec<_>>()})),
+        ("max_by", "max_by(people, &age).name", |t, n, r| json!({"people": (0..n).map(|i| json!({"name": format!("p{}-{}", t, i), "age": 20 + r.below(4)})).collect::<Vec<_>>()})),
+        ("min_by", "min_by(people, &age).name", |t, n, r| json!({"people": (0..n).map(|i| json!({"name": format!("p{}-{}", t, i), "age": 20 + r.below(4)})).collect::<Vec<_>>()})),
+        ("max", "[max(v), min(v)]", |t, n, r| json!({"v": (0..n).map(|_| (r.below(9) + t) as i64).collect::<Vec<_>>()})),
+        ("sum", "[sum(v), avg(v)]", |t, n, r| json!({"v": (0..n).map(|_| (r.below(1000) + t) as i64).collect::<Vec<_>>()})),
+        ("map", "map(&abs(v), items)", |t, n, r| {
+            let mut items: Vec<Value> = (0..n).map(|i| json!({"v": -((i + t) as i64)})).collect();
+            if n >= 16 && r.below(2) == 0 {
+                let at = n / 2 - 1;
+                items[at] = json!({"v": "n/a"});
+                for it in items.iter_mut().skip(at + 1) { *it = json!({"v": true}); }
+            }
+            json!({"items": items})
+        }),
+        ("projection", "items[*].id", |t, n, _| json!({"items": (0..n).map(|i| json!({"id": format!("r{}-{}", t, i)})).collect::<Vec<_>>()})),
+        ("filter", "items[?n >= `0`].id", |t, n, _| json!({"items": (0..n).map(|i| json!({"id": format!("r{}-{}", t, i), "n": i})).collect::<Vec<_>>()})),
+        ("reverse", "[reverse(v), reverse(s)]", |t, n, _| json!({"v": (0..n).map(|i| i + t).collect::<Vec<_>>(), "s": (0..n).map(|i| char::from(b'a' + ((i + t) % 26) as u8)).collect::<String>()})),
+        ("to_string", "to_string(@)", |t, n, _| json!({"k": (0..n).map(|i| json!([i, t])).collect::<Vec<_>>()})),
+        ("merge", "merge(a, b, a)", |t, n, _| json!({"a": (0..n).map(|i| (format!("k{}", i), json!(t))).collect::<serde_json::Map<String, Value>>(), "b": (0..n / 2).map(|i| (format!("k{}", i * 2), json!(i))).collect::<serde_json::Map<String, Value>>()})),
+        ("keys", "[keys(a), values(a)]", |t, n, _| json!({"a": (0..n).map(|i| (format!("k{:04}", i), json!(i + t))).collect::<serde_json::Map<String, Value>>()})),
+        ("length", "[length(s), length(v), contains(s, 'é'), starts_with(s, 'é')]", |t, n, _| json!({"s": "é".repeat(n) + &t.to_string(), "v": (0..n).collect::<Vec<_>>()})),
+        ("flatten", "rows[].id", |t, n, _| json!({"rows": (0..n).map(|i| json!([{"id": i + t}, {"id": -(i as i64)}])).collect::<Vec<_>>()})),
+        ("to_number", "v[*].to_number(@)", |t, n, _| json!({"v": (0..n).map(|i| format!("{}", 1_700_000_000_000u64 + (i * 7 + t) as u64)).collect::<Vec<_>>()})),
+    ];
+    let mut mismatches: Vec<Value> = vec![];
+    let mut total = 0u64;
+    let mut panics = 0u64;
+    let mut per_fn = std::collections::BTreeMap::new();
+    for (wi, (name, text, build)) in workloads.iter().enumerate() {
+        let rt = fresh();
+        let stop = AtomicBool::new(false);
+        let arrived = AtomicUsize::new(0);
+        let results: Vec<(Vec<Value>, u64, bool)> = thread::scope(|sc| {
+            let hs: Vec<_> = (0..threads)
+                .map(|t| {
+                    let (rt, stop, arrived) = (&rt, &stop, &arrived);
+                    sc.spawn(move || {
+                        let mut r = Rng(seed ^ ((wi as u64) << 32) ^ (t as u64 * 7919));
+                        // this thread's cases and what a private runtime says about them
+                        let private = fresh();
+                        let cases: Vec<(Rcvar, String, usize)> = SIZES
+                            .iter()
+                            .filter(|n| **n < 2600 || (t % 4 == 0 && matches!(*name, "map" | "projection" | "sum" | "sort_by" | "join")))
+                            .map(|n| {
+                                let d = Rcvar::new(var_of(&build(t, *n, &mut r)));
+                                let want = fp(&private.compile(text).and_then(|e| e.search(&d)));
+                                (d, want, *n)
+                            })
+                            .collect();
+                        let mut mism = vec![];
+                        let mut done = 0u64;
+                        let res = catch_unwind(AssertUnwindSafe(|| {
+                            let shared = rt.compile(text);
+                            arrived.fetch_add(1, Ordering::SeqCst);
+                            while arrived.load(Ordering::SeqCst) < threads {
+                                std::hint::spin_loop();
+                            }
+                            let mut k = t;
+                            while !stop.load(Ordering::Relaxed) {
+                                let (d, want, n) = &cases[k % cases.len()];
+                                k += 1 + (r.below(3));
+                                let g = match &shared {
+                                    Ok(e) => fp(&e.search(d)),
+                                    Err(e) => format!("compile-err:{}", e.reason),
+                                };
+                                done += 1;
+                                if &g != want && mism.len() < 2 {
+                                    mism.push(json!({"mode": "hammer", "function": name, "expression": text, "thread": t, "elements": n,
+                                        "private_runtime": want.chars().take(240).collect::<String>(), "shared_runtime_under_contention": g.chars().take(240).collect::<String>()}));
+                                }
+                            }
+                        }));
+                        (mism, done, res.is_err())
+                    })
+                })
+                .collect();
+            let t0 = Instant::now();
+            while t0.elapsed() < Duration::from_millis(millis) {
+                thread::sleep(Duration::from_millis(5));
+            }
+            stop.store(true, Ordering::Relaxed);
+            hs.into_iter().map(|h| h.join().unwrap_or((vec![], 0, true))).collect()
+        });
+        for (m, d, p) in results {
+            for x in m {
+                if mismatches.len() < 8 {
+                    mismatches.push(x);
+                }
+            }
+            total += d;
+            *per_fn.entry(*name).or_insert(0u64) += d;
+            if p {
+                panics += 1;
+                if mismatches.len() < 8 {
+                    mismatches.push(json!({"mode": "hammer", "function": name, "expression": text, "observed": "a thread panicked inside the library under contention"}));
+                }
+            }
+        }
+    }
+    // fresh shared runtimes: never-seen long arrays arrive at the aggregates from all threads at once
+    let rounds = (millis as usize) * 2;
+    let mut fresh_rounds = 0u64;
+    for round in 0..rounds {
+        let rt = fresh();
+        let arrived = AtomicUsize::new(0);
+        let exprs = ["sum(v)", "avg(v)", "max(v)", "length(v)", "sort(v)[0]", "max_by(recs, &n).n", "join('', s)"];
+        let compiled: Vec<_> = exprs.iter().map(|x| rt.compile(x).unwrap()).collect();
+        let results: Vec<(Vec<Value>, u64, bool)> = thread::scope(|sc| {
+            let hs: Vec<_> = (0..threads)
+                .map(|t| {
+                    let (arrived, compiled) = (&arrived, &compiled);
+                    sc.spawn(move || {
+                        let mut mism = vec![];
+                        let mut done = 0u64;
+                        let per = 80 / threads.max(1) + 2;
+                        let docs: Vec<(Rcvar, [String; 7])> = (0..per)
+                            .map(|j| {
+                                let n = 64 + (round + t * 5 + j * 3) % 40;
+                                let base = (round * 131 + t * 17 + j) as i64;
+                                let v: Vec<i64> = (0..n as i64).map(|i| base + i).collect();
+                                let sum: i64 = v.iter().sum();
+                                let d = json!({"v": v, "recs": v.iter().map(|x| json!({"n": x})).collect::<Vec<_>>(), "s": v.iter().map(|x| x.to_string()).collect::<Vec<_>>()});
+                                let want = [
+                                    format!("ok:{:?}", sum as f64),
+                                    format!("ok:{:?}", sum as f64 / n as f64),
+                                    format!("ok:{}", base + n as i64 - 1),
+                                    format!("ok:{}", n),
+                                    format!("ok:{}", base),
+                                    format!("ok:{}", base + n as i64 - 1),
+                                    format!("ok:\"{}\"", v.iter().map(|x| x.to_string()).collect::<String>()),
+                                ];
+                                (Rcvar::new(var_of(&d)), want)
+                            })
+                            .collect();
+                        let res = catch_unwind(AssertUnwindSafe(|| {
+                            arrived.fetch_add(1, Ordering::SeqCst);
+                            while arrived.load(Ordering::SeqCst) < threads {
+                                std::hint::spin_loop();
+                            }
+                            for (d, want) in docs.iter() {
+                                for (i, e) in compiled.iter().enumerate() {
+                                    let g = fp(&e.search(d));
+                                    done += 1;
+                                    if g != want[i] && mism.len() < 2 {
+                                        mism.push(json!({"mode": "hammer/fresh-runtime", "round": round, "thread": t, "expression": e.as_str(), "known_by_construction": want[i], "observed": g.chars().take(200).collect::<String>()}));
+                                    }
+                                }
+                            }
+                        }));
+                        (mism, done, res.is_err())
+                    })
+                })
+                .collect();
+            hs.into_iter().map(|h| h.join().unwrap_or((vec![], 0, true))).collect()
+        });
+        fresh_rounds += 1;
+        for (m, d, p) in results {
+            for x in m {
+                if mismatches.len() < 8 {
+                    mismatches.push(x);
+                }
+            }
+            total += d;
+            if p {
+                panics += 1;
+                if mismatches.len() < 8 {
+                    mismatches.push(json!({"mode": "hammer/fresh-runtime", "round": round, "observed": "a thread panicked inside the library while all threads brought new long arrays to a fresh runtime"}));
+                }
+            }
+        }
+        if mismatches.len() >= 8 {
+            break;
+        }
+    }
+    json!({"mode": "stress", "threads": threads, "searches": total, "mismatches": mismatches, "panics": panics,
+           "interleaving": format!("hammer{}x{}ms+fresh{}", threads, millis, fresh_rounds), "per_function": per_fn, "fresh_runtime_rounds": fresh_rounds, "inputs_mutated": []})
+}
+
 fn main() {
     let a: Vec<String> = std::env::args().skip(1).collect();
     let num = |i: usize, d: u64| a.get(i).and_then(|v| v.parse().ok()).unwrap_or(d);
@@ -817,6 +1037,7 @@ fn main() {
         Some("stress") => stress(num(1, 4) as usize, num(2, 1000) as usize, num(3, 1), 24, 6),
         Some("first") => first(num(1, 4) as usize, num(2, 0), 26),
         Some("burst") => burst(num(1, 4) as usize, num(2, 2000) as usize, num(3, 1)),
+        Some("hammer") => hammer(num(1, 8) as usize, num(2, 150), num(3, 1)),
         Some("crowd") => crowd(num(1, 8) as usize, num(2, 20) as usize, num(3, 1)),
         Some("handoff") => handoff(num(1, 4) as usize, num(2, 300) as usize, num(3, 1)),
         Some("hotchurn") => hotchurn(num(1, 8) as usize, num(2, 2000), num(3, 1)),
